@@ -25,8 +25,11 @@ def run(ctx):
             rng = random.Random(str(sp['seed']) + '/slp')
             sp['opts']['slp'] = {'n': rng.randint(1, 3), 'kf': rng.randint(1, sp['grid']['T'] - 1), 'identical': rng.random() < 0.2,
                                  'robust_without_grid': rng.random() < 0.5}
-            if rng.random() < 0.3:
+            r_ = rng.random()
+            if r_ < 0.3:
                 sp['opts']['slp'].update(ordered=True, identical=False, n=rng.randint(2, 3))
+            elif r_ < 0.5:
+                sp['opts']['slp'].update(decades=True, identical=False, n=rng.randint(1, 3))
     specs = ctx.specs(specs)
     res = C.run_impl('slp', specs)
     exprs, owners = [], []
